@@ -148,7 +148,7 @@ def parse(file_path):
                     if tag == "path":
                         current_object.path = convert_posix_to_local_path(element.text)
                         file_size = element.attrib.get("size")
-                        current_object.file_size = int(file_size) if file_size else None
+                        current_object.file_size = int(file_size) if file_size is not None else None
                     # TODO: parse date
                     # elif tag == 'lastmodificationdate':
                     # 	current_object.file_size = element.text
@@ -280,7 +280,7 @@ def _media_hash_xml_element(media_hash: MHLMediaHash):
     """builds and returns one <hash> element for a given MediaHash object"""
 
     path_element = E.path(convert_local_path_to_posix(media_hash.path))
-    if media_hash.file_size:
+    if media_hash.file_size is not None:
         path_element.attrib["size"] = str(media_hash.file_size)
     if media_hash.last_modification_date:
         path_element.attrib["lastmodificationdate"] = datetime_isostring(media_hash.last_modification_date)
